@@ -69,7 +69,7 @@ func runC10A(c retainCase) (bool, []string, error) {
 			if !k.open || failure != nil {
 				continue
 			}
-			if err := spec.Match(k.want, spec.Abs(ts, false, k.v), fmt.Sprintf("record[%d]", k.index)); err != nil {
+			if err := spec.Match(k.want, spec.AbsStrict(ts, false, k.v), fmt.Sprintf("record[%d]", k.index)); err != nil {
 				failure = fmt.Errorf("%s: a record whose bank is still open changed: %v", when, err)
 			}
 			k.verified++
@@ -85,7 +85,7 @@ func runC10A(c retainCase) (bool, []string, error) {
 	rerr := avro.ReadFile(bytes.NewReader(file), out1, func(val unsafe.Pointer, rb *avro.ResourceBank) error {
 		cp := reflect.New(typ).Elem()
 		cp.Set(reflect.NewAt(typ, val).Elem())
-		k := &kept{v: cp, bank: rb, want: spec.Abs(ts, false, cp), closeAt: -1, open: true, index: n}
+		k := &kept{v: cp, bank: rb, want: spec.AbsStrict(ts, false, cp), closeAt: -1, open: true, index: n}
 		if n < len(c.CloseAt) && c.CloseAt[n] >= 0 {
 			k.closeAt = n + c.CloseAt[n]
 		}
